@@ -618,9 +618,12 @@ theorem writeRaw_plain (comps : List Tok) (prev : Option (List Char))
       obtain ⟨l1, l2, e⟩ := hab
       exact ⟨t :: l1, l2, by simp [← e]⟩
 
-example : TokShape (tNum ['1']) ∧ TokShape (Tok.mk .delim ['/'] []) ∧ TokShape (Tok.mk .delim ['*'] []) ∧
+example : (∀ t ∈ [tNum ['1'], Tok.mk .delim ['/'] [], Tok.mk .delim ['*'] []], TokShape t) ∧
     writeDeclaration [tNum ['1'], Tok.mk .delim ['/'] [], Tok.mk .delim ['*'] []] false = S "1/ *" ∧
     writeDeclaration [tIdent (S "a"), Tok.mk .comma [','] [], tNum ['1'], tNum ['2']] true = S "a,1 2!important" := by
-  decide
+  refine ⟨?_, by decide, by decide⟩
+  intro t ht
+  simp only [List.mem_cons, List.mem_nil_iff, or_false] at ht
+  rcases ht with h | h | h <;> subst h <;> simp [TokShape, tNum, Tok.tt, Tok.data]
 
 end Verif.Props.C04
